@@ -62,6 +62,9 @@ def fini_case(dt, sets):
     return "fini %s %d %s" % (d, len(sets), " ".join("%d %d" % kv for kv in sets))
 
 
+GEN = {"on": False}     # set by run()/replay(): does the source carry generation tags?
+
+
 def finib_case(dt, ops):
     """ops: ("s", k, v) | ("b", k)"""
     if dt == "all" or dt == "none":
@@ -91,7 +94,10 @@ def parse_fini(case):
                 cur[k] = v; order.append(k)
             else:
                 k = int(w[i + 1]); i += 2
-                cur.pop(k, None)       # a new incarnation of the index: what was stored belongs to a deleted key
+                # a new incarnation of the index: what was stored belongs to a deleted key.  Without generation
+                # tags "b" does nothing to the key table (harness) - the case is then an ordinary one
+                if GEN["on"]:
+                    cur.pop(k, None)
         return dt, [(k, cur[k]) for k in dict.fromkeys(order) if k in cur]
     i = 1
     if w[i] == "all":
@@ -337,6 +343,7 @@ def corpus_cases():
 def run(ctx):
     broken, log = ctx.prove("Properties_C11.v", "Properties_C11")
     gen, lock = source_variant()
+    GEN["on"] = gen
     unit, libexe, drv = build(ctx, gen, lock)
     q = not ctx.thorough
     cases = ["variant %d %d" % (int(gen), int(lock)), "consts"] + corpus_cases() + gen_unit(ctx, 500 if q else 8000, gen)
@@ -435,6 +442,7 @@ def run(ctx):
 def replay(ctx, path):
     body = json.load(open(path))
     gen, lock = source_variant()
+    GEN["on"] = gen
     unit, libexe, drv = build(ctx, gen, lock)
     v = "variant %d %d" % (int(gen), int(lock))
     if "case" in body:
